@@ -14,6 +14,9 @@ use std::mem;
 use std::num::NonZeroUsize;
 use std::slice;
 use std::sync::atomic::Ordering;
+#[cfg(all(erikbrinkman_cfr_verif, loom))]
+use loom::sync::Mutex;
+#[cfg(not(all(erikbrinkman_cfr_verif, loom)))]
 use std::sync::Mutex;
 
 type ChanceIter<'a, 'b> = Zip<slice::Iter<'a, f64>, slice::Iter<'b, Node>>;
